@@ -2,6 +2,7 @@ package main
 
 import (
 	"fmt"
+	"regexp"
 	"go/token"
 	"go/types"
 	"strings"
@@ -219,6 +220,21 @@ func (x *Exec) modOfContract(m *ModSet, ci *calleeInfo, c *ssa.CallCommon) {
 			continue
 		}
 		// heap designator: *p, p.F, bigval(p), elems(p)
+		if strings.HasPrefix(d, "pointee(") && strings.HasSuffix(d, ")") {
+			if t := pointeeType(c, names, d[8:len(d)-1], ci.invoke); t != nil {
+				switch kindOf(t) {
+				case KStruct:
+					m.addFamsOf(RStruct, t, 0, -1)
+				case KBig:
+					m.Big = true
+				default:
+					m.addFamsOf(RBox, t, 0, -1)
+				}
+				continue
+			}
+			m.All = true
+			continue
+		}
 		fams, big := x.designatorFamilies(d, names, typs)
 		if big {
 			m.Big = true
@@ -230,6 +246,10 @@ func (x *Exec) modOfContract(m *ModSet, ci *calleeInfo, c *ssa.CallCommon) {
 }
 
 func (x *Exec) designatorFamilies(d string, names []string, typs []types.Type) (fams []Family, big bool) {
+	if strings.HasPrefix(d, "pointee(") {
+		// resolved per call site in modOfContract
+		return nil, false
+	}
 	find := func(n string) types.Type {
 		for i, nm := range names {
 			if nm == n && i < len(typs) {
@@ -238,7 +258,16 @@ func (x *Exec) designatorFamilies(d string, names []string, typs []types.Type) (
 		}
 		panic("modifies: unknown parameter " + n + " in designator " + d)
 	}
+	if m := reAsPtr.FindStringSubmatch(d); m != nil {
+		t := x.typeByName(m[2])
+		if kindOf(t) == KStruct {
+			return familiesOf(RStruct, t), false
+		}
+		return familiesOf(RBox, t), false
+	}
 	switch {
+	case strings.HasPrefix(d, "boxof(") && strings.HasSuffix(d, ")"):
+		return familiesOf(RBox, x.typeByName(d[6:len(d)-1])), false
 	case strings.HasPrefix(d, "bigval(") && strings.HasSuffix(d, ")"):
 		return nil, true
 	case strings.HasPrefix(d, "*"):
@@ -455,6 +484,9 @@ func (x *Exec) applyContract(fr *Frame, ci *calleeInfo, c *ssa.CallCommon, args 
 	for i, n := range names {
 		env.vars[n] = cargs[i]
 	}
+	if ci.invoke {
+		env.vars["self"] = x.get(fr, c.Value)
+	}
 	pos := x.pos(c.Pos())
 	for j, r := range ct.Requires {
 		g := x.evalClause(env, r)
@@ -469,7 +501,7 @@ func (x *Exec) applyContract(fr *Frame, ci *calleeInfo, c *ssa.CallCommon, args 
 		st.ctr = nc
 	}
 	for _, d := range ct.Modifies {
-		x.havocDesignator(env, d, st, reach)
+		x.havocDesignator(env, d, st, reach, c, names, ci.invoke)
 	}
 	// results
 	var res []*Sym
@@ -521,12 +553,29 @@ func (x *Exec) applyContract(fr *Frame, ci *calleeInfo, c *ssa.CallCommon, args 
 	return res
 }
 
+// pointeeType: static element type of the pointer that is converted to the interface argument `pn`.
+func pointeeType(c *ssa.CallCommon, names []string, pn string, invoke bool) types.Type {
+	for i, n := range names {
+		if n != pn || i >= len(c.Args) {
+			continue
+		}
+		if mi, ok := c.Args[i].(*ssa.MakeInterface); ok {
+			if pt, ok := mi.X.Type().Underlying().(*types.Pointer); ok {
+				return pt.Elem()
+			}
+		}
+	}
+	return nil
+}
+
+var reAsPtr = regexp.MustCompile(`^\*asptr\((\w+),\s*"([^"]+)"\)$`)
+
 func isErrorType(t types.Type) bool {
 	n, ok := t.(*types.Named)
 	return ok && n.Obj().Pkg() == nil && n.Obj().Name() == "error"
 }
 
-func (x *Exec) havocDesignator(env *Env, d string, st *State, reach *Term) {
+func (x *Exec) havocDesignator(env *Env, d string, st *State, reach *Term, c *ssa.CallCommon, names []string, invoke bool) {
 	if rec, ok := x.sp.Records[d]; ok {
 		for _, f := range rec.Fields {
 			n := d + "." + f.Name
@@ -540,7 +589,37 @@ func (x *Exec) havocDesignator(env *Env, d string, st *State, reach *Term) {
 			return
 		}
 	}
+	if strings.HasPrefix(d, "pointee(") && strings.HasSuffix(d, ")") {
+		// pointee(p): p is an interface parameter holding a pointer; the designated location is what
+		// that pointer points to, with the static type known at this call site
+		pn := d[8 : len(d)-1]
+		t := pointeeType(c, names, pn, invoke)
+		p := env.vars[pn]
+		if t == nil || p == nil {
+			panic("modifies: cannot determine the pointee type of " + pn + " at this call site")
+		}
+		ptr := &Sym{T: types.NewPointer(t), L: []*Term{p.term()}}
+		x.storePtr(st, ptr, t, x.freshSym(t, "mod", st.ctr, reach))
+		return
+	}
+	if m := reAsPtr.FindStringSubmatch(d); m != nil {
+		// *asptr(p, "T"): the cell of type T that the interface/ref value p points to
+		p := env.vars[m[1]]
+		if p == nil {
+			panic("modifies: unknown parameter in " + d)
+		}
+		t := x.typeByName(m[2])
+		ptr := &Sym{T: types.NewPointer(t), L: []*Term{p.term()}}
+		x.storePtr(st, ptr, t, x.freshSym(t, "mod", st.ctr, reach))
+		return
+	}
 	switch {
+	case strings.HasPrefix(d, "boxof(") && strings.HasSuffix(d, ")"):
+		// every cell holding a value of the named (non-struct) type
+		for _, f := range familiesOf(RBox, x.typeByName(d[6:len(d)-1])) {
+			st.fams[f.Name] = f
+			st.heap[f.Name] = x.vc.fresh("H."+f.Name, f.Sort)
+		}
 	case strings.HasPrefix(d, "bigval(") && strings.HasSuffix(d, ")"):
 		p := env.vars[d[7:len(d)-1]]
 		if p == nil {
